@@ -1,6 +1,8 @@
 (* C13 - sequence diagrams terminate, are well-formed and follow the call tree. Statements only; proofs by `exact`.
-   Model: Seq/SeqModel.v (visitEndpoint / visitStatment / writer, transliterated); `variant_now` and the shape tables are
-   regenerated from pkg/cmdutils/visitor.go on every run (Gen/SeqShape.v). *)
+   Model: Seq/SeqModel.v - visitEndpointCollection / visitEndpoint / visitStatment / visitAlt / visitBlockStmt and the
+   writer's Activate / Activated / Deactivate, transliterated; `gen V m fuel bbs starts` is GenerateSequenceDiag for
+   module m, blackbox map bbs and start entries `starts`. V holds the two facts about the source that were defects;
+   `variant_now` and the shape tables are regenerated from pkg/cmdutils/visitor.go on every run (Gen/SeqShape.v). *)
 From Coq Require Import String List NArith Bool.
 Import ListNotations.
 Require Import Verif.Seq.SeqModel Verif.Seq.SeqFlat Verif.Seq.SeqProps Verif.Seq.SeqShapeProps Verif.Gen.SeqShape.
@@ -10,11 +12,26 @@ Theorem C13_source_shape_known : shape_known = true.
 Proof. exact shape_is_known. Qed.
 Print Assumptions C13_source_shape_known.
 
+(* a missing call target is an error (not a panic) and the in-progress branch deactivates only what it activated *)
 Theorem C13_source_is_repaired : variant_now = {| v_lookup_panics := false; v_inprog_unguarded := false |}.
 Proof. exact variant_now_fixed. Qed.
 Print Assumptions C13_source_is_repaired.
 
-(* a missing call target yields an error, never a panic - for the lookups of the CURRENT source *)
+Theorem C13_source_shape :
+  stmt_arms = [("Action","visitAction"); ("Alt","visitAlt"); ("Call","visitCall"); ("Cond","visitCond");
+               ("Foreach","visitForeach"); ("Group","visitGroup"); ("Loop","visitLoop"); ("LoopN","visitLoopN");
+               ("Ret","visitRet"); ("default","panic")]%string
+  /\ group_stmt_closes = true /\ alt_rule = "last-statement-and-last-choice"%string
+  /\ is_last_rule = "parent-last-and-last-index"%string.
+Proof. exact (conj stmt_arms_expected (conj group_stmt_closes_block (conj alt_rule_expected is_last_rule_expected))). Qed.
+Print Assumptions C13_source_shape.
+
+(* ---- termination: every call graph (recursion, mutual recursion, self calls), every start list, every option ---- *)
+Theorem C13_terminates : forall V m fuel bbs starts, n_endpoints m < fuel -> gen V m fuel bbs starts <> OutOfFuel.
+Proof. exact seq_terminates. Qed.
+Print Assumptions C13_terminates.
+
+(* ---- "a diagram or an error": no panic, for the lookups of the CURRENT source ---- *)
 Theorem C13_no_panic : forall m fuel bbs starts, gen variant_now m fuel bbs starts <> Panic.
 Proof. intros m. exact (seq_no_panic variant_now m (f_equal v_lookup_panics variant_now_fixed)). Qed.
 Print Assumptions C13_no_panic.
@@ -23,3 +40,44 @@ Theorem C13_no_panic_refuted_before_repair :
   gen {| v_lookup_panics := true; v_inprog_unguarded := false |} dangling_module (fuel_for dangling_module) [] [(0%N,0%N)] = Panic.
 Proof. exact seq_no_panic_refuted_when_lookups_panic. Qed.
 Print Assumptions C13_no_panic_refuted_before_repair.
+
+(* ---- every opened block is closed (else only inside alt, section headers outside any block) ---- *)
+Theorem C13_blocks_closed : forall V m fuel bbs starts d ev,
+  wf_module m -> gen V m fuel bbs starts = Ok (d, ev) -> blocks_closed ev.
+Proof. exact seq_blocks_closed. Qed.
+Print Assumptions C13_blocks_closed.
+
+(* wf_module (every alternative has at least one choice - all the parser produces) is needed *)
+Theorem C13_blocks_closed_refuted_for_empty_alt :
+  exists d ev, gen {| v_lookup_panics := false; v_inprog_unguarded := false |} empty_alt_module (fuel_for empty_alt_module) [] [(0%N,0%N)] = Ok (d, ev)
+               /\ blk [] ev = None.
+Proof. exact seq_blocks_closed_refuted_for_empty_alt. Qed.
+Print Assumptions C13_blocks_closed_refuted_for_empty_alt.
+
+(* ---- activations and deactivations pair up per participant and never go negative ---- *)
+Theorem C13_balanced : forall V m fuel bbs starts d ev,
+  gen V m fuel bbs starts = Ok (d, ev) ->
+  forall x, n_act x ev = n_deact x ev /\ forall pre post, ev = pre ++ post -> n_deact x pre <= n_act x pre.
+Proof. exact seq_balanced. Qed.
+Print Assumptions C13_balanced.
+
+(* ---- a participant sends calls only while it is active (human / cron participants are never activated) ---- *)
+Theorem C13_sender_active : forall m fuel bbs starts d ev,
+  gen variant_now m fuel bbs starts = Ok (d, ev) ->
+  forall pre x t e post, ev = pre ++ Arrow (P x) t e :: post -> suppressed m x = true \/ n_deact x pre < n_act x pre.
+Proof. intros m fuel bbs starts d ev. exact (seq_sender_active variant_now m fuel bbs starts d ev (f_equal v_inprog_unguarded variant_now_fixed)). Qed.
+Print Assumptions C13_sender_active.
+
+Theorem C13_sender_active_refuted_before_repair :
+  exists d ev pre t e post,
+    gen {| v_lookup_panics := false; v_inprog_unguarded := true |} inprog_module (fuel_for inprog_module) [] [(0%N,0%N)] = Ok (d, ev)
+    /\ ev = pre ++ Arrow (P 0%N) t e :: post /\ suppressed inprog_module 0%N = false /\ n_act 0%N pre = n_deact 0%N pre.
+Proof. exact seq_sender_active_refuted_when_unguarded. Qed.
+Print Assumptions C13_sender_active_refuted_before_repair.
+
+(* ---- the call arrows are exactly the reference walk: calls reachable from the start(s), depth first in source
+   order, a call already in progress (or black-boxed) shown but not expanded ---- *)
+Theorem C13_follows_calls : forall V m fuel bbs starts d ev,
+  gen V m fuel bbs starts = Ok (d, ev) -> arrows ev = ref_entries m fuel starts (make_bbs bbs) starts.
+Proof. exact seq_follows_calls. Qed.
+Print Assumptions C13_follows_calls.
